@@ -347,7 +347,7 @@ theorem one_file_at_a_time (cfg : Config) (plan : Nat → Fault) (now : Parts) (
     So every created name `prefix.….ext` starts with the template's stem and ends with its extension. -/
 theorem template_split (path d p e : List Nat) (h : dirPrefixExt path = some (d, p, e)) :
     ∃ name, name ≠ [] ∧ slash ∉ name ∧
-      ((path = name ∧ d = []) ∨ ∃ d', path = d' ++ slash :: name ∧ d = if d' = [] then [slash] else d') ∧
+      ((path = name ∧ d = [dot]) ∨ ∃ d', path = d' ++ slash :: name ∧ d = if d' = [] then [slash] else d') ∧
       ((name = p ++ dot :: e ∧ dot ∉ e ∧ p ≠ []) ∨ (name = p ∧ e = [108, 111, 103])) := by
   unfold dirPrefixExt at h
   -- the directory part
@@ -424,5 +424,17 @@ example :
     memberCount cfg (run cfg okPlan emptyState
       [.batch ⟨2024, 1, 1, 0, 0, 0, 0⟩ 1 (Batch.ofEvents [[97, 10]]),
        .batch ⟨2024, 1, 1, 0, 1, 0, 0⟩ 2 (Batch.ofEvents [[98, 10]])]).fs = 1 := by decide
+
+
+/-- **The directory is never the empty string** (defect D18, repaired: `app.log` used to split into the directory
+    `""`, which the operating system can neither list nor open to sync — every batch failed after creating an empty
+    file, nothing was written and retention never ran). For every path the split accepts. -/
+theorem dir_never_empty (path d p e : List Nat) (h : dirPrefixExt path = some (d, p, e)) : d ≠ [] := by
+  obtain ⟨name, _, _, hd, _⟩ := template_split path d p e h
+  rcases hd with ⟨_, rfl⟩ | ⟨d', _, rfl⟩
+  · simp
+  · split <;> simp_all
+
+example : dirPrefixExt [97, 112, 112, dot, 108, 111, 103] = some ([dot], [97, 112, 112], [108, 111, 103]) := by decide
 
 end EmitModel.C11
